@@ -15,12 +15,25 @@ def again(prog, env, **kw):
         return None
     if any(b.items and not b.is_flushed() for b in env.batches):
         return None
+    carried = []
+    root = env.recs.get(prog["root"]["id"])
+    h = root.handle if root is not None else None
+    if h is not None and h.is_computed():
+        got = engine.carry_probe(h)
+        if h._error is not None:
+            if not (got[0] == "exc" and got[1] is h._error):
+                carried.append("a later computation yields the (failed) root task of this one: it received %r instead of having the stored error %r raised at the yield" % (got, h._error))
+        elif not (got[0] == "ok" and got[1] is h._value):
+            carried.append("a later computation yields the (completed) root task of this one: it received %r, the stored value is %r" % (got, h._value))
     engine.interlude()
     pre = getattr(env, "pre_next", None)
     if pre is not None:
         # the root task object of this second run was created before the first run started
-        return engine.run_program(pre.prog, reset=False, prepared=pre, **kw)
-    return engine.run_program(copy.deepcopy(prog), reset=False, **kw)
+        env_b = engine.run_program(pre.prog, reset=False, prepared=pre, **kw)
+    else:
+        env_b = engine.run_program(copy.deepcopy(prog), reset=False, **kw)
+    env_b.carried = carried
+    return env_b
 
 
 def first(prog, **kw):
@@ -39,8 +52,11 @@ def first(prog, **kw):
     return engine.run_program(prog, **kw)
 
 
-def second(viol):
-    return [(c, m + "   [second run of the program on the same scheduler, nothing reset in between]") for c, m in viol]
+def second(viol, env_b=None, clause=None):
+    out = [(c, m + "   [second run of the program on the same scheduler, nothing reset in between]") for c, m in viol]
+    if env_b is not None and clause:
+        out += [(clause, m) for m in getattr(env_b, "carried", [])]
+    return out
 
 
 def reference(prog, env):
